@@ -43,22 +43,17 @@ flow bad
  "_process_internal_events_without_default_matchers->create_flow_instance": """
 flow main
   activate good
+  activate trouble
+
+flow trouble
   match UtteranceUserAction.Finished(final_transcript="hi")
   start bad
 
 flow bad $x = 1/0
   match UtteranceUserAction.Finished(final_transcript="never")
 """ + GOOD,
- "_process_internal_events_without_default_matchers->_get_reference_activated_flow_instance": """
-flow main
-  activate good
-  activate bad
-  match UtteranceUserAction.Finished(final_transcript="hi")
-  activate bad
-
-flow bad $x = unknown_function()
-  match UtteranceUserAction.Finished(final_transcript="never")
-""" + GOOD,
+ # (the edge _process_internal_events_without_default_matchers -> _get_reference_activated_flow_instance is covered by the same try as create_flow_instance since 982ad58;
+ #  its old scenario failed the activation already while main started, which correctly fails main - no separate case is kept)
  "_finish_flow->_log_action_or_intents": """
 flow main
   activate good
@@ -98,6 +93,9 @@ flow bad
  "_handle_event_matching->_start_flow": """
 flow main
   activate good
+  activate trouble
+
+flow trouble
   match UtteranceUserAction.Finished(final_transcript="hi")
   start bad "a" "b"
 
@@ -113,7 +111,9 @@ for name, co in CASES.items():
         out, raised = [], "setup %s: %s" % (type(e).__name__, str(e)[:80])
     good = any(e.get("script") == "good reacts" for e in out)
     errs = [e for e in out if e["type"] == "ColangError"]
-    rep = raised is not None and not raised.startswith("setup") or (not good and not (raised or "").startswith("setup"))
+    # `good` is activated by main: where the faulty statement is main's own (`start bad` with a failing default), main fails and takes its children with it (C06) -
+    # that is containment, not a violation.  Reproduced = the error left run_to_completion, or nothing was reported and `good` was silenced.
+    rep = raised is not None and not raised.startswith("setup") or (not good and not errs and not (raised or "").startswith("setup"))
     any_rep |= rep
     print("F8 %-85s escaped=%-60s unrelated_flow_reacted=%-5s reproduced=%s" % (name, raised, good, rep))
 sys.exit(1 if any_rep else 0)
